@@ -219,6 +219,38 @@ def write_partition(d, groups, shape, rnd):
         for p in files:
             os.unlink(p)
         paths.append(out)
+    elif shape in ('merged2', 'mixed'):
+        # merge-results applied to files that are themselves merge outputs (repeated runs merged in stages), optionally next to an ordinary file
+        from click.testing import CliRunner
+        from panqec.cli import cli
+        while len(chunks) < 3:
+            big = max(range(len(chunks)), key=lambda j_: len(chunks[j_]))
+            if len(chunks[big]) < 2:
+                break
+            c_ = chunks.pop(big); chunks += [c_[:len(c_) // 2], c_[len(c_) // 2:]]
+        files = []
+        for j, c in enumerate(chunks):
+            p = os.path.join(d, 'part_%d.json' % j); json.dump(c, open(p, 'w')); files.append(p)
+        keep_plain = files.pop() if shape == 'mixed' and len(files) > 2 else None
+        half = max(1, len(files) // 2)
+        stage1 = []
+        for j, grp in enumerate((files[:half], files[half:])):
+            if not grp:
+                continue
+            o1 = os.path.join(d, 'stage1_%d.json.gz' % j)
+            r = CliRunner().invoke(cli, ['merge-results'] + grp + ['-o', o1])
+            if r.exit_code != 0:
+                raise RuntimeError('merge-results failed: %s' % r.output[-200:])
+            stage1.append(o1)
+        out = os.path.join(d, 'merged_twice.json.gz')
+        r = CliRunner().invoke(cli, ['merge-results'] + stage1 + ['-o', out])
+        if r.exit_code != 0:
+            raise RuntimeError('merge-results (second stage) failed: %s' % r.output[-200:])
+        for p in files + stage1:
+            os.unlink(p)
+        paths.append(out)
+        if keep_plain:
+            paths.append(keep_plain)
     elif shape == 'dir':
         sub = os.path.join(d, 'sub'); os.makedirs(sub)
         for j, c in enumerate(chunks):
@@ -274,7 +306,7 @@ def native_conservation(groups, shape, rnd):
 
 def replay(r):
     rnd = random.Random(0)
-    for shape in ('single', 'many', 'gzip', 'zip', 'merged', 'dir'):
+    for shape in ('single', 'many', 'gzip', 'zip', 'merged', 'merged2', 'mixed', 'dir'):
         groups = synth_records(rnd)
         try:
             why = native_conservation(groups, shape, rnd)
@@ -286,6 +318,17 @@ def replay(r):
 
 
 def replay_file(data):
+    inp = (data or {}).get('input') or {}
+    if inp.get('partition'):
+        for sd in range(4):
+            rnd = random.Random(sd)
+            try:
+                why = native_conservation(synth_records(rnd), inp['partition'], rnd)
+            except Exception as e:      # noqa
+                why = 'analysis raises %s: %s' % (type(e).__name__, str(e)[:200])
+            if why:
+                return dict(confirmed=True, input=dict(partition=inp['partition'], seed=sd), detail=why)
+        return dict(confirmed=False, input=inp, detail='aggregates conserved on 4 synthetic multisets in this partition shape')
     return replay({})
 
 
@@ -294,7 +337,7 @@ def bounded(tier, seed):
     ev, nt, viol, samples = 0, set(), [], []
     for rep in range(2 if tier == 'quick' else 10):
         groups = synth_records(rnd, 3 if tier == 'quick' else 5)
-        for shape in ('single', 'many', 'gzip', 'zip', 'merged', 'dir'):
+        for shape in ('single', 'many', 'gzip', 'zip', 'merged', 'merged2', 'mixed', 'dir'):
             try:
                 why = native_conservation(groups, shape, rnd)
             except Exception as e:      # noqa
@@ -308,5 +351,5 @@ def bounded(tier, seed):
     for v in viol:
         if v['obligation'] not in seen:
             seen.add(v['obligation']); out.append(v)
-    return dict(bound='%d synthetic multisets (3-5 configurations, k in {1,2,3}, 5-30 trials each) x 6 partition shapes (single file, many files, gzip, zip with nested json/json.gz, merge-results output, directory), random splits and order' % (2 if tier == 'quick' else 10),
+    return dict(bound='%d synthetic multisets (3-5 configurations, k in {1,2,3}, 5-30 trials each) x 8 partition shapes (single file, many files, gzip, zip with nested json/json.gz, merge-results output, merge of merges, merge of merges next to a plain file, directory), random splits and order' % (2 if tier == 'quick' else 10),
                 evaluations=ev, distinct_nontrivial=len(nt), rule='real Analysis(...) vs independently pooled counts', samples=samples[:6], violations=out)
